@@ -11,6 +11,10 @@ func main() {
 		xlate.Spec{Pkg: "frac/lids", Recv: "Table", Name: "GetChunksCount"},
 		xlate.Spec{Pkg: "frac/lids", Recv: "Table", Name: "HasTIDInPrevBlock"},
 		xlate.Spec{Pkg: "frac/lids", Recv: "Table", Name: "HasTIDInNextBlock"},
+		xlate.Spec{Pkg: "frac/lids", Recv: "Table", Name: "GetFirstBlockIndexForTID"},
+		xlate.Spec{Pkg: "frac/lids", Recv: "Table", Name: "GetLastBlockIndexForTID"},
+		// GetMID / GetRID load ID blocks through caches: they stay uninterpreted (parameters p_GetMID, p_GetRID)
+		xlate.Spec{Pkg: "frac", Recv: "sealedIDsIndex", Name: "LessOrEqual", Oracles: []string{"sealedIDsIndex.GetMID", "sealedIDsIndex.GetRID"}},
 		xlate.Spec{Pkg: "frac", Recv: "DiskBlocksProducer", Name: "getTokensBlocksGenerator", As: "blockSize",
 			Stmts: []string{"blocksCount := fieldSize", "blockSize := max("}},
 	)
